@@ -1091,7 +1091,7 @@ func genJSONCase(t *rapid.T) c25Case {
 		m = map[string]string{"a": p[0], "b": p[1], "c": p[2]}
 	}
 	for i := 0; i < ncols; i++ {
-		depth := rapid.IntRange(0, 3).Draw(t, "depth"+strconv.Itoa(i))
+		depth := rapid.SampledFrom([]int{0, 1, 2, 2, 3, 3}).Draw(t, "depth"+strconv.Itoa(i))
 		jt := gen.NormType(t, depth, "t"+strconv.Itoa(i))
 		if m != nil {
 			jt = renameFields(jt, m)
